@@ -241,7 +241,8 @@ METHODS = ["mReset", "mPush", "mPop", "mget", "mput", "mname", "mShow"]
 STRINGS = ["", "a", "hello", "Hello world!", "x y", "it's", "100%", "a,b;c", "(paren)", "[br]", "#hash", "-- not a comment", "- -",
            "val=", "3.5", "the of to", "end", "\r", "\t", "\x08", "\x03", "\""]
 INTS = [0, 1, 2, 5, 9, 10, 42, 100, 127, 128, 129, 255, 256, 1000, 32767, 32768, 65535, 65536, 70000, 2147483647]
-FLOATS = [(30, 1), (5, 1), (3001, 3), (15, 1), (25, 2), (1, 1), (125, 3), (100001, 2), (314159, 5), (12345678, 4), (7, 3)]
+FLOATS = [(30, 1), (5, 1), (3001, 3), (15, 1), (25, 2), (1, 1), (125, 3), (100001, 2), (314159, 5), (12345678, 4), (7, 3),
+          (1234567890123456, 16), (30000000000000004, 16), (1000000000000001, 15)]    # 16-17 significant digits (exponent notation is C11's: the reference reader of C02 reads plain decimals only)
 LOCALS = ["x", "y", "z", "myVar", "counter", "tmp", "val", "aList", "str1", "idx"]
 PARAMS = ["a", "b", "c", "whichObject", "n1"]
 GLOBALS = ["gList", "gCount", "myGlobal", "gFlag", "gName"]
